@@ -2,7 +2,9 @@
    Model/Halt.v: a primary P (log [plog], granted halt lock [phalt]), the replica R that takes the lock
    ([rlock], [rlog]) over a network that loses responses and requests, an observer replica O ([olog]);
    [step] is one event (grant, local write, checkpoint, replica commit, release, expiry, a foreign
-   POST /tx), [settle] the replication stream that follows it.  Logs are lists of
+   POST /tx, a hand-over of the primary role to O), [settle] the replication stream that follows it.  [ohalt] is the
+   halt lock a former primary still holds on its own database: until it expires that node cannot follow the stream, which
+   is the one exception in C13_reaches_every_replica.  Logs are lists of
    (txid, checksum before, checksum after, producer).  [Inv]: P's log is a linked chain and both
    replicas hold a suffix of it.  Real-time aspects (TTL clock, time-outs, a release racing the apply
    inside one /tx request) are not in the model: expiry is an event between requests. *)
@@ -43,10 +45,11 @@ Proof. exact commit_acknowledged. Qed.
 (* then it reaches every other replica (and, if the acknowledgement was lost, the committing replica
    itself): after each event and the stream that follows, both replicas hold the primary's history *)
 Theorem C13_reaches_every_replica : forall s e s' c, Inv s -> step_settled s e = (s', c) ->
-  rlog s' = plog s' /\ olog s' = plog s'.
+  rlog s' = plog s' /\ (ohalt s' = None -> olog s' = plog s').
 Proof. exact step_settled_converged. Qed.
-Theorem C13_reachable : forall es s0, Inv s0 -> rlog s0 = plog s0 -> olog s0 = plog s0 ->
-  Inv (final s0 es) /\ rlog (final s0 es) = plog (final s0 es) /\ olog (final s0 es) = plog (final s0 es).
+Theorem C13_reachable : forall es s0, Inv s0 -> rlog s0 = plog s0 -> (ohalt s0 = None -> olog s0 = plog s0) ->
+  Inv (final s0 es) /\ rlog (final s0 es) = plog (final s0 es) /\
+  (ohalt (final s0 es) = None -> olog (final s0 es) = plog (final s0 es)).
 Proof. exact reachable_converged. Qed.
 Theorem C13_init : Inv init.
 Proof. exact inv_init. Qed.
@@ -96,10 +99,45 @@ Theorem C13_restart_forgets : forall s post d,
   rlock s1 = None /\ plog s1 = plog s /\ phalt s1 = phalt s /\ rlog s1 = rlog s /\ step s1 (ECommit post d) = (s1, c_refused).
 Proof. exact restart_forgets. Qed.
 
+(* primary change while a halt is held.  The role is handed to a connected, caught-up replica (the only hand-over the
+   model has); the history is the same, so nothing acknowledged is lost; the new primary has granted no lock, writes at
+   once, and whatever the former holder forwards - under any lock id - is refused and changes nothing; the former primary
+   keeps the lock it had granted and cannot follow the new primary until that lock expires; then everybody converges *)
+Theorem C13_handoff_spec : forall s s', step s EHandoff = (s', c_ok) ->
+  ohalt s = None /\ olog s = plog s /\ plog s' = plog s /\ olog s' = plog s /\ phalt s' = None /\ ohalt s' = phalt s /\
+  rlock s' = rlock s /\ rlog s' = rlog s.
+Proof. exact handoff_spec. Qed.
+Theorem C13_handoff_refused_changes_nothing : forall s s', step s EHandoff = (s', c_refused) -> s' = s.
+Proof. exact handoff_refused. Qed.
+Theorem C13_handoff_accepted_when_converged : forall s, ohalt s = None -> olog s = plog s -> snd (step s EHandoff) = c_ok.
+Proof. exact handoff_accepted_when_converged. Qed.
+Theorem C13_handoff_to_stuck_node_refused : forall s p, ohalt s = Some p -> step s EHandoff = (s, c_refused).
+Proof. exact handoff_to_stuck_node_refused. Qed.
+Theorem C13_handoff_new_primary_free : forall s s' post d, step s EHandoff = (s', c_ok) ->
+  snd (step s' (ELocalWrite post)) = c_ok /\ step s' (ECommit post d) = (s', c_refused) /\
+  (forall id e, forward s' id e = (s', false)).
+Proof. exact handoff_new_primary_free. Qed.
+Theorem C13_former_primary_stuck_until_expiry : forall s p, ohalt s = Some p -> stream_o s = s.
+Proof. exact former_primary_stuck. Qed.
+Theorem C13_expire_unsticks : forall s, ohalt (fst (step s EExpire)) = None /\ phalt (fst (step s EExpire)) = None.
+Proof. exact expire_unsticks. Qed.
+Theorem C13_expire_settled_converges : forall s s' c, Inv s -> step_settled s EExpire = (s', c) ->
+  rlog s' = plog s' /\ olog s' = plog s'.
+Proof. exact expire_settled_converges. Qed.
+
 (* Non-vacuity: grant, blocked local write, two forwarded commits (the second unacknowledged), the stream
    repairs the replica and clears its stale lock, expiry, the primary writes again *)
 Example C13_nonvacuous :
   run (start_of [5; 6]) [EGrant 11 true; ELocalWrite 9; ECommit 7 true; ECommit 8 false; EExpire; ELocalWrite 10; ECommit 12 true]
-  = [[1; 2; 6; 2; 6; 2; 6; 11; 11]; [0; 2; 6; 2; 6; 2; 6; 11; 11]; [1; 3; 7; 3; 7; 3; 7; 11; 11]; [2; 4; 8; 4; 8; 4; 8; 11; 0];
-     [1; 4; 8; 4; 8; 4; 8; 0; 0]; [1; 5; 10; 5; 10; 5; 10; 0; 0]; [0; 5; 10; 5; 10; 5; 10; 0; 0]].
+  = [[1; 2; 6; 2; 6; 2; 6; 11; 11; 0]; [0; 2; 6; 2; 6; 2; 6; 11; 11; 0]; [1; 3; 7; 3; 7; 3; 7; 11; 11; 0]; [2; 4; 8; 4; 8; 4; 8; 11; 0; 0];
+     [1; 4; 8; 4; 8; 4; 8; 0; 0; 0]; [1; 5; 10; 5; 10; 5; 10; 0; 0; 0]; [0; 5; 10; 5; 10; 5; 10; 0; 0; 0]].
+Proof. vm_compute. reflexivity. Qed.
+(* ... and a primary change while halted: the hand-over, the former holder's commit refused, the new primary writes, the
+   former primary (third position) stays behind with its lock (last number) until expiry, a hand-over back to it is
+   refused meanwhile and accepted afterwards *)
+Example C13_handoff_nonvacuous :
+  run (start_of [5; 6]) [EGrant 11 true; ECommit 7 true; EHandoff; ECommit 8 true; ELocalWrite 9; EHandoff; EExpire; EHandoff; ELocalWrite 10]
+  = [[1; 2; 6; 2; 6; 2; 6; 11; 11; 0]; [1; 3; 7; 3; 7; 3; 7; 11; 11; 0]; [1; 3; 7; 3; 7; 3; 7; 0; 11; 11]; [0; 3; 7; 3; 7; 3; 7; 0; 11; 11];
+     [1; 4; 9; 4; 9; 3; 7; 0; 0; 11]; [0; 4; 9; 4; 9; 3; 7; 0; 0; 11]; [1; 4; 9; 4; 9; 4; 9; 0; 0; 0]; [1; 4; 9; 4; 9; 4; 9; 0; 0; 0];
+     [1; 5; 10; 5; 10; 5; 10; 0; 0; 0]].
 Proof. vm_compute. reflexivity. Qed.
